@@ -234,13 +234,31 @@ const (
 
 func EvAdvance(d time.Duration) string { return fmt.Sprintf("advance %v|T:%d", d, int64(d)) }
 
-// Apply executes one event.
+// Apply executes one event.  An event body may chain several steps with '+'
+// (e.g. a SUBSCRIBE and the broker's SUBACK as one atomic environment step).
 func (g *GW) Apply(ev string) error {
 	i := strings.LastIndex(ev, "|")
 	if i < 0 {
 		return fmt.Errorf("bad event %q", ev)
 	}
-	body := ev[i+1:]
+	for _, body := range strings.Split(ev[i+1:], "+") {
+		if err := g.applyOne(body); err != nil {
+			return fmt.Errorf("bad event %q: %v", ev, err)
+		}
+	}
+	return nil
+}
+
+// Ev chains several events into one composite event.
+func Ev(label string, parts ...string) string {
+	var bodies []string
+	for _, p := range parts {
+		bodies = append(bodies, p[strings.LastIndex(p, "|")+1:])
+	}
+	return label + "|" + strings.Join(bodies, "+")
+}
+
+func (g *GW) applyOne(body string) error {
 	switch {
 	case strings.HasPrefix(body, "C:"):
 		b, err := hex.DecodeString(body[2:])
@@ -265,7 +283,7 @@ func (g *GW) Apply(ev string) error {
 		fmt.Sscan(body[2:], &d)
 		g.S.Advance(time.Duration(d))
 	default:
-		return fmt.Errorf("bad event %q", ev)
+		return fmt.Errorf("unknown step %q", body)
 	}
 	return nil
 }
